@@ -129,6 +129,32 @@ def design(ctx):
         raise MachineryError("regression config: the pinned sweep without re-gauging no longer violates FullCoverage")
 
 
+def _judge_ps_schedule(ctx, pid, ptraces, cases):
+    """code -> spec: environment reads, system-block rebuilds and signs of the local evolutions recorded from real one-site
+    projector-splitting calls must be the schedule TLC emitted from SweepPS for that chain length and entry direction."""
+    sched = {}
+    for N in sorted({t["n"] for t in ptraces}):
+        cfg = tlc.make_cfg(constants=dict(N=N, Regauge=True), spec="Spec", invariants=["EnvFresh", "OnCentre", "FullCoverage", "EmitSchedule"])
+        r = tlc.run("SweepPS", cfg, mode="emit", timeout=600)
+        ctx.add_tlc(r, f"SweepPS N={N}: schedule emission")
+        if r["violated"]:
+            ctx.violation(f"{pid}:spec:SweepPS:{r['violated']}", f"SweepPS violates {r['violated']}", {"tlc": (r.get("error_text") or "")[:2000]})
+        for e in r["emitted"]:
+            sched[(e["n"], e["start"])] = [list(x[:2]) if x[0] in ("ev1", "ev0") else list(x) for x in e["events"]]
+    if not ptraces:
+        raise MachineryError("no projector-splitting call was recorded")
+    for t in ptraces:
+        ctx.traces(1)
+        exp = sched.get((t["n"], t["start"]))
+        if exp is None:
+            raise MachineryError(f"no SweepPS schedule for {(t['n'], t['start'])}")
+        if t["events"] != exp:
+            first = next((i for i, (a, b) in enumerate(zip(t["events"], exp)) if a != b), min(len(t["events"]), len(exp)))
+            ctx.violation(f"{pid}:schedule:ps", f"recorded one-site sweep differs from the SweepPS schedule at event {first}: got {t['events'][first:first + 3]}, expected {exp[first:first + 3]}",
+                          {"trace": t, "case": cases[t["idx"]]})
+    ctx.notes["ps_schedule_traces"] = len(ptraces)
+
+
 def _judge_adaptive(ctx, pid, atraces, cases):
     """code -> spec: the recorded inner steps of the adaptive controllers, judged by TLC (AdaptiveTrace) in one batch,
     together with corrupted copies of one of them that MUST be rejected (binding demonstration)."""
@@ -213,6 +239,7 @@ def run(ctx, imag=False):
     stats = {}
     slow = []
     atraces = []
+    ptraces = []
     for st_, o in res:
         if st_ != "ok":
             raise MachineryError("evolve worker failed: " + o)
@@ -226,6 +253,8 @@ def run(ctx, imag=False):
                     # reported by their own checks; kept in the evidence notes here
                     stats.setdefault("foreign", []).append(key)
             slow.append((r.get("wall", 0), idx))
+            for t in r.get("ps_traces", []):
+                ptraces.append(t)
             for t in r.get("adaptive_traces", []):
                 t["id"] = len(atraces)
                 atraces.append(t)
@@ -266,6 +295,7 @@ def run(ctx, imag=False):
             for key, what, detail in o["viol"]:
                 ctx.violation(key, what, detail)
     _judge_adaptive(ctx, pid, atraces, cases)
+    _judge_ps_schedule(ctx, pid, ptraces, cases)
     ctx.sample(cases[len(cases) // 2])
     ctx.sample(cases[0])
     ctx.cov["rule"] = ("(configuration, call history) pairs enumerated by TLC from EvolveSpace (quick: one per configuration class; thorough: all, wide tableau/gauge sets, "
